@@ -74,7 +74,8 @@ def register_contracts(I):
 
 
 def run_harness(job):
-    propmod, modname, fname, opts = job
+    propmod, modname, fname, opts = job[:4]
+    initial = job[4] if len(job) > 4 else None
     from pyvc.interp import CutSig, RaiseSig
 
     t0 = time.time()
@@ -94,7 +95,8 @@ def run_harness(job):
             except CutSig:
                 pass
 
-        res = eng.explore(run_path)
+        res = eng.explore(run_path, initial=initial, fanout=opts.get("fanout") if initial is None else None)
+        out["remaining"] = res["remaining"]
         out["paths"] = res["paths"]
         out["aborted"] = res["aborted"]
         out["checks"] = [c.as_dict() for c in res["checks"]]
@@ -108,6 +110,21 @@ def run_harness(job):
         out["error"] = "crash: " + "".join(traceback.format_exception(type(exc), exc, exc.__traceback__))[-3000:]
     out["secs"] = time.time() - t0
     return out
+
+
+def merge_results(first, more):
+    by = {r["harness"]: r for r in first}
+    for m in more:
+        r = by[m["harness"]]
+        if m["error"] and not r["error"]:
+            r["error"] = m["error"]
+        r["checks"].extend(m["checks"])
+        r["covers"] = sorted(set(r["covers"]) | set(m["covers"]))
+        r["notes"] = sorted({tuple(n) for n in r["notes"]} | {tuple(n) for n in m["notes"]})
+        r["paths"] += m["paths"]
+        r["aborted"] += m["aborted"]
+        r["secs"] += m["secs"]
+    return first
 
 
 def list_harnesses(prop):
@@ -210,9 +227,20 @@ def main(argv=None):
         jobs = [j for j in jobs if args.only in j[1]]
     propmod = prop.lower()
     work = [(propmod, m, f, opts) for (m, f) in jobs]
-    if args.jobs > 1 and len(work) > 1:
-        with multiprocessing.get_context("fork").Pool(min(args.jobs, len(work))) as pool:
-            results = pool.map(run_harness, work, chunksize=1)
+    if args.jobs > 1:
+        # stage 1: every harness breadth-first until it has fanned out into enough pending
+        # decision prefixes; stage 2: the pending prefixes of all harnesses, in parallel
+        opts["fanout"] = 3 * args.jobs
+        with multiprocessing.get_context("fork").Pool(args.jobs) as pool:
+            first = pool.map(run_harness, work, chunksize=1)
+            shards = []
+            for w, r in zip(work, first):
+                rem = r.pop("remaining", None) or []
+                step = max(1, (len(rem) + args.jobs - 1) // args.jobs)
+                for i in range(0, len(rem), step):
+                    shards.append((w[0], w[1], w[2], w[3], rem[i : i + step]))
+            more = pool.map(run_harness, shards, chunksize=1) if shards else []
+        results = merge_results(first, more)
     else:
         results = [run_harness(w) for w in work]
 
